@@ -24,7 +24,7 @@ func init() {
 			return 120000
 		},
 		Run:      runC13,
-		Required: []string{"same_origin_accepted", "cross_origin_refused", "real_server_cases", "cases_with_deployment_context"},
+		Required: []string{"same_origin_accepted", "cross_origin_refused", "real_server_cases", "cases_with_deployment_context", "cases_with_further_connection_tokens"},
 		Assumptions: []string{
 			"origins whose host needs percent-decoding, scheme-less origins and origins with userinfo in front of the genuine host are not generated (the property does not decide them)",
 		},
@@ -307,7 +307,14 @@ func runC13(ctx *core.Ctx, out *core.Out) {
 		out.Count("cases_with_deployment_context", 1)
 	}
 	q := &hsReq{H: map[string][]string{}, Classes: map[string]string{}, classOf: map[string]int{}, Host: host, Target: "/ws", Method: "GET"}
-	q.set("Connection", []string{"Upgrade"}, cValid)
+	// other tokens a client or an intermediary may list in Connection (all valid token lists
+	// containing "upgrade"): none of them changes which Origin the request carries
+	connVal := "Upgrade"
+	if r.Chance(1, 4) {
+		connVal = []string{"Upgrade, Origin", "origin, upgrade", "keep-alive, Upgrade", "Upgrade, Host", "Upgrade, Sec-WebSocket-Key, Origin", "Upgrade, Cookie", "TE, Upgrade, Origin", "Upgrade, X-Forwarded-Host"}[r.Intn(8)]
+		out.Count("cases_with_further_connection_tokens", 1)
+	}
+	q.set("Connection", []string{connVal}, cValid)
 	q.set("Upgrade", []string{"websocket"}, cValid)
 	q.set("Sec-Websocket-Version", []string{"13"}, cValid)
 	q.set("Sec-Websocket-Key", []string{someKey}, cValid)
@@ -326,7 +333,7 @@ func runC13(ctx *core.Ctx, out *core.Out) {
 			}
 		}
 	}
-	desc := map[string]interface{}{"deployment": u.Deploy, "other_headers": extra, "host": fmt.Sprintf("%q", host), "origin": fmt.Sprintf("%q", origin), "construction": kind, "must_accept": wantAccept, "mode": map[bool]string{true: "real net/http server", false: "direct"}[realMode]}
+	desc := map[string]interface{}{"deployment": u.Deploy, "other_headers": extra, "host": fmt.Sprintf("%q", host), "origin": fmt.Sprintf("%q", origin), "construction": kind, "connection": connVal, "must_accept": wantAccept, "mode": map[bool]string{true: "real net/http server", false: "direct"}[realMode]}
 	out.Eval(fmt.Sprintf("%q|%q", host, origin), origin != nil)
 	var o *hsOutcome
 	if realMode {
